@@ -60,12 +60,14 @@ PROP = {
             "cluster mode on string/hash/list/zset entries (split bins, keyExists replace/ignore, RESTORE or expanded, replace-hashtag on/off, 16 brace arrangements) "
             "-> execBisyncRdbUnit -> nodes (unit slot = HASH_SLOT(target key), every command on the target key, one block at the owner); cluster-global lane "
             "(bisyncRdbGlobalTargets with shuffled ranges, execBisyncRdbGlobalUnit over direct connections: one block per primary, marker on a slot that primary serves). "
-            "Oracle shapes: 31 + 46 more written from the command reference (SINTERSTORE/SDIFFSTORE, RENAMENX, GEOSEARCHSTORE, ZINTERSTORE/ZDIFFSTORE, "
+            "Also: the builder's introspection connection cannot be opened while the client's COMMAND GETKEYS works (fb_builder=connfail): a command outside the tables must stop "
+            "the replay, nothing of it sent; snapshot values of 1-200 elements (units beyond 64 commands: one block all the same, no block without the marker). "
+            "Oracle shapes: 31 + 50 more written from the command reference (MSETEX numkeys key value…, FCALL_RO, CMS.MERGE / TDIGEST.MERGE, (SINTERSTORE/SDIFFSTORE, RENAMENX, GEOSEARCHSTORE, ZINTERSTORE/ZDIFFSTORE, "
             "GEORADIUSBYMEMBER..STOREDIST, LMPOP/ZMPOP/BLMPOP/BZMPOP, EVALSHA, FCALL, JSON.MSET, XREADGROUP, BRPOPLPUSH, BLMOVE, BRPOP, BZPOPMIN, 25 single-key commands), "
             "lower/upper/mixed-case names; corpus/C18 pins the D1 key and the two seeded-mutation inputs with their key positions. "
             "distinct_nontrivial = distinct accepted single-slot transactions",
     "trusted": ["Redis Cluster HASH_SLOT as transcribed in Model/Slot.lean (C11)",
-                "key positions of the 31 generator command shapes, written from the Redis command reference (harness oracle only)",
+                "key positions of the 81 generator command shapes, written from the Redis command reference (harness oracle only)",
                 "COMMAND GETKEYS on the target modelled as an arbitrary function (quantified in the theorems, 5 behaviours in the harness)"],
     "assumptions": ["the checkpoint name contains no '{' (NewBisyncCheckpointName: prefix + ':' + hex; its body is compared with expectation and 200 generated names are checked)",
                     "builder, commit order and txnBatcher models tied by correspondence; control-key constructors, marker TTL and the slot-tag table regenerated from source",
@@ -76,10 +78,12 @@ PROP = {
                     "(client_revalidation_agrees', committed_txn_accepted) assume they answer alike on the commands the static tables do not resolve; where they differ the "
                     "client can refuse a unit the builder accepted (Lean example; harness: replay stops, nothing of the unit sent)",
                     "unit_single_slot is relative to the key positions the resolver names (regenerated keyspec tables / COMMAND GETKEYS); that those are Redis's positions is "
-                    "tied by the 77 independently written shapes of the harness oracle and by C10, not proved",
+                    "tied by the 81 independently written shapes of the harness oracle and by C10, not proved",
                     "`replayUnit … = none` / `wire … = error` (unroutable_refused_before_send 2nd conjunct, client_refusal_sends_nothing) restate how the model composes builder "
                     "and client; that the CODE sends nothing is what refused_txn_emits_nothing (parser model, tied by C13's parse ops) and the loop monitors establish",
                     "a checkpoint name read back from the target's checkpoint hash is assumed to be one the tool generated (brace-free); only generated names are checked",
+                    "CMS.MERGE / TDIGEST.MERGE: the oracle names the DESTINATION as the only key, as the modules declare it (first=last=1) and as COMMAND GETKEYS and a cluster "
+                    "node's slot check see it; sources on other slots are not found by the module on that node — a matter of the module's semantics, not of routing",
                     "slot-map holes (a slot without a known owner) refuse a single-slot unit at the client: outside the statements (Covered), exercised only by the txn ops",
                     "in parallel mode a unit the CLIENT refuses fails on its lane while later units of other slots may already have been dispatched on theirs (observed, counted "
                     "as loop_parallel_lane_overtake): the property speaks of the refused transaction itself, of which nothing is sent",
@@ -87,7 +91,19 @@ PROP = {
                     "(blocks are matched to their case by the run id in the marker, so a lane worker of an earlier case cannot pollute a later one or take its armed fault); "
                     "no monitor depends on a block being absent at a point in time except after that explicit wait; a run that reaches neither condition in 20 s is retried once "
                     "and only judged if it stalls again (counted loop_stalled_retry / loop_stalled_twice)"],
-    "partial": [],
+    "partial": ["rdb_unit_single_slot: `u.slot = hashSlotSpec(target key)` and 'control keys on that slot' are proved; its single-slot clause ASSUMES hk (every resolved key of "
+                "every command of the unit IS the target key) — buildRdbUnit takes the command list as a free parameter; that captureBisyncRdbExpandedCommands / RESTORE / the "
+                "DEL prefix deliver such a list is tied only by the harness monitor rdb-command-off-target-key (string/hash/list/zset values of 1-200 elements)",
+                "refused_txn_emits_nothing is a statement about the parser MODEL (Bisync.parse); the model is tied to parseAofReplayUnits by C13's parse ops (cluster mode "
+                "included), not by C18's own harness: C18's 'refusal emits nothing' rests on C13 passing too, plus the loop monitors here",
+                "a late block of a lane worker (parallel mode) that lands after the case's settle window is dropped by run id and cannot be judged (sent-after-refusal for a slow "
+                "lane is timing-dependent in the safe direction); such blocks are counted (loop_late_blocks_of_earlier_case) so that a change that merely delays a forbidden block shows in the evidence",
+                "unit-accepted-undetermined (a command for which the resolver names NO key inside an otherwise single-slot transaction must be refused) is exercised with a custom "
+                "resolver only: the tool's own resolver never answers 'ok, no keys' (tables name >= 1 key or decline; an empty COMMAND GETKEYS answer is 'not routable')",
+                "a plain EOF that sendAofBisync reports as nil is counted (loop_eof_reported_as_nil), not judged: the property needs an error REPORTED when a unit is refused "
+                "(refusal-did-not-stop-replay), not a particular value for the end of the stream",
+                "./check C18 --replay FILE re-runs the one loop case / snapshot unit / command list (build + txn + replay ops, 24 draws of commit kind and slot-map hole) the file "
+                "describes; files of the table and wiring checks (slot tags, control keys, names) carry no input and re-run the whole suite"],
 }
 
 MANIFEST = {
